@@ -18,7 +18,8 @@ EXTENDS Poly, FiniteSets
 
 CONSTANTS WBITS,            \* width of the model's index word
           Bug_AtWraps,      \* Support::at computes  start+index >= end      (pinned tree, D2)
-          Bug_IntervalWraps \* intervalIndexFromAbsolute computes index+1<end (pinned tree, D3)
+          Bug_IntervalWraps,\* intervalIndexFromAbsolute computes index+1<end (pinned tree, D3)
+          Bug_GridScanGE    \* the strictly-increasing scan tests  a >= b  (pinned tree, D1)
 
 None == -1                       \* "std::nullopt" / "not contained" / "throws" for index results
 NoneR == <<>>                    \* "throws" for results that are grid points (a rational is a pair)
@@ -35,6 +36,26 @@ GridValid(pts) == /\ Len(pts) >= 2
                   /\ \A i \in 1..(Len(pts) - 1) : RLt(pts[i], pts[i + 1])
 
 GridEq(p, q) == p = q            \* logical equality: same points
+
+\* Grids of a floating type may contain special values.  An extended value is a
+\* triple <<tag, n, d>>: tag 0 = the number n/d, 1 = NaN, 2 = +Inf, 3 = -Inf,
+\* 4 = -0.0.  Every comparison with NaN is false.
+XVal(t) == IF t[1] = 4 THEN RZero ELSE R(t[2], t[3])
+XLt(a, b) == CASE a[1] = 1 \/ b[1] = 1 -> FALSE
+               [] a[1] = 3 -> b[1] # 3                                   \* -Inf < everything but -Inf
+               [] b[1] = 2 -> a[1] # 2                                   \* everything but +Inf < +Inf
+               [] a[1] = 2 \/ b[1] = 3 -> FALSE
+               [] OTHER -> RLt(XVal(a), XVal(b))
+XEq(a, b) == CASE a[1] = 1 \/ b[1] = 1 -> FALSE
+               [] a[1] \in {2, 3} \/ b[1] \in {2, 3} -> a[1] = b[1]
+               [] OTHER -> XVal(a) = XVal(b)
+XGe(a, b) == XLt(b, a) \/ XEq(a, b)
+\* the documented condition: at least two points, each strictly smaller than its successor
+XGridValid(p) == Len(p) >= 2 /\ \A i \in 1..(Len(p) - 1) : XLt(p[i], p[i + 1])
+\* Level I: Grid::checkValidity / isSteadilyIncreasing as written
+XGridAcceptsI(p) ==
+  /\ Len(p) >= 2
+  /\ \A i \in 2..Len(p) : IF Bug_GridScanGE THEN ~XGe(p[i - 1], p[i]) ELSE XLt(p[i - 1], p[i])
 
 \* findElement: index of x, or None (the code throws INCONSISTENT_DATA)
 GridFind(pts, x) == IF \E i \in DOMAIN pts : pts[i] = x
